@@ -163,6 +163,9 @@ func runTLC(dir, kind string, n int, record bool, dump string, workers int, time
 		rec = "TRUE"
 	}
 	c := strings.NewReplacer("@N@", fmt.Sprint(n), "@KIND@", kind, "@RECORD@", rec).Replace(string(cfg))
+	if x := os.Getenv("KZMC_E1B_EXTRA_INVARIANT"); x != "" && dump == "" {
+		c = strings.Replace(c, "INVARIANTS ", "INVARIANTS "+x+" ", 1) // self-test hook, see HandOff.tla
+	}
 	os.WriteFile(filepath.Join(dir, "HandOff.cfg"), []byte(c), 0o644)
 	args := []string{"-Xmx4g", "-XX:+UseParallelGC", "-Djava.io.tmpdir=" + dir, "-cp", tlaJar, "tlc2.TLC", "-workers", fmt.Sprint(workers), "-metadir", filepath.Join(dir, "meta")}
 	if dump != "" {
@@ -757,20 +760,129 @@ func e1bRun(c *Ctx) {
 			sum.TLC[key] = "not completed: " + r.err.Error()
 			c.Capped("TLC " + key + " not completed")
 		case strings.Contains(r.out, "is violated") || strings.Contains(r.out, "violated"):
-			// the model conforms to the code for N <= 3 and TLC finds a counterexample for a larger N:
-			// report it with the trace; the direct exploration for N = 4, 5 decides independently
-			tr := lastLines(r.out, 60)
-			sum.TLC[key] = "COUNTEREXAMPLE: " + trunc(tr, 3000)
-			c.Violate("E1b.model", map[string]any{"kind": r.j.kind, "n": r.j.n}, &Fail{FP: "model-counterexample " + key, Detail: "the TLA+ model of the hand-off conforms to this tree for N<=3 (both directions) and TLC reports a property violation for " + key + ": " + trunc(tr, 1500)})
+			// The model conforms to the code for N <= 3 and TLC finds a counterexample for a larger N.
+			// It is believed only if the implementation reproduces it: TLC is run again with the events
+			// recorded in the states, the trace becomes a directed schedule (+ failure placement), and
+			// the real code runs it under the monitor.
+			verdict, detail, cs := e1bConfirm(dir, r.j.kind, r.j.n, exe)
+			sum.TLC[key] = "COUNTEREXAMPLE from TLC; on the implementation: " + verdict + " - " + trunc(detail, 2500)
+			if verdict == "reproduced" {
+				c.Violate("E1b.model", cs, &Fail{FP: "model-counterexample-reproduced " + key, Detail: "TLC found a violation of the hand-off properties for " + key + " on a model that conforms to this tree for N<=3, and the real code reproduces it when run with the trace's schedule: " + trunc(detail, 1500)})
+			} else {
+				c.Capped("TLC counterexample for " + key + " was not reproduced by the implementation (" + verdict + "): the model does not describe this tree for that N; not a violation")
+			}
 		default:
 			c.HarnessError("TLC " + key + ": " + trunc(lastLines(r.out, 15), 1000))
 		}
 	}
 }
 
-var famE1b = NewFamily("E1b.model", func(m map[string]any) (*Fail, bool) {
-	return failf("model-counterexample", "replay: re-run the check (TLC is deterministic for this spec)"), true
+type e1bCex struct {
+	Spec     e1Spec `json:"spec"`
+	Directed []int  `json:"directed_thread_ids"`
+}
+
+// replay of a confirmed model counterexample: the directed schedule on the implementation
+var famE1b = NewFamily("E1b.model", func(cx e1bCex) (*Fail, bool) {
+	js, _ := json.Marshal(cx)
+	exe, _ := os.Executable()
+	out, err := exec.Command(exe, "e1bcexworker", string(js)).Output()
+	var res struct {
+		Viols   map[string]string `json:"violations"`
+		Outcome string            `json:"outcome"`
+		DirErr  string            `json:"directed_error"`
+	}
+	if e := json.Unmarshal(out, &res); e != nil || err != nil {
+		return failf("harness", "replay worker: %v %v", err, e), true
+	}
+	for tag, d := range res.Viols {
+		return failf(tag+" "+cx.Spec.Name, "%s (outcome %s)", d, res.Outcome), true
+	}
+	return nil, true
 })
+
+func init() {
+	workerCmds["e1bcexworker"] = func(args []string) {
+		var cx e1bCex
+		if err := json.Unmarshal([]byte(args[0]), &cx); err != nil {
+			os.Exit(2)
+		}
+		preps, err := e1PrepareAll(&cx.Spec)
+		if err != nil {
+			fmt.Printf(`{"directed_error":%q}`, err.Error())
+			return
+		}
+		e1Directed = cx.Directed
+		ex := e1RunOnce(&cx.Spec, preps, nil, nil, false, true)
+		e1Directed = nil
+		out, _ := json.Marshal(map[string]any{"violations": ex.viols, "outcome": ex.outcome, "directed_error": ex.sched.DirErr})
+		os.Stdout.Write(out)
+	}
+}
+
+var (
+	reTraceLast = regexp.MustCompile(`last = <<(-?\d+), "([a-z]+)", (-?\d+)>>`)
+	reTraceEnv  = regexp.MustCompile(`env = \[ft \|-> (\d+), fs \|-> (\d+), eos \|-> (\d+), bad \|-> (\d+)\]`)
+)
+
+// e1bConfirm re-runs TLC with Record = TRUE for (kind, n), turns the error trace into a scenario and
+// a directed schedule and runs it on the implementation. verdict: "reproduced" | "not reproduced" |
+// "no trace".
+func e1bConfirm(dir, kind string, n int, exe string) (verdict, detail string, cs e1bCex) {
+	out, _ := runTLC(filepath.Join(dir, fmt.Sprintf("cex-%s%d", kind, n)), kind, n, true, "", 4, 60*time.Minute)
+	idx := strings.Index(out, "Error:")
+	if idx < 0 {
+		return "no trace", "TLC with recorded events reported no error", cs
+	}
+	var env [4]int
+	var directed []int
+	var labels []string
+	for _, blk := range strings.Split(out[idx:], "\nState ")[1:] {
+		if m := reTraceEnv.FindStringSubmatch(blk); m != nil {
+			for i := 0; i < 4; i++ {
+				env[i], _ = strconv.Atoi(m[i+1])
+			}
+		}
+		m := reTraceLast.FindStringSubmatch(blk)
+		if m == nil || m[2] == "init" {
+			continue
+		}
+		k, _ := strconv.Atoi(m[1])
+		directed = append(directed, k)
+		labels = append(labels, fmt.Sprintf("<<%s,%s,%s>>", m[1], m[2], m[3]))
+	}
+	if len(directed) == 0 {
+		return "no trace", trunc(lastLines(out, 20), 800), cs
+	}
+	sp := e1bSpec(kind, n, env)
+	sp.Name = fmt.Sprintf("model counterexample %s N=%d env=%v", kind, n, env)
+	sp.Oracles = c07Oracles
+	cs = e1bCex{Spec: sp, Directed: directed}
+	js, _ := json.Marshal(cs)
+	cmd := exec.Command(exe, "e1bcexworker", string(js))
+	cmd.Env = append(os.Environ(), "GOMAXPROCS=1")
+	raw, err := cmd.Output()
+	var res struct {
+		Viols   map[string]string `json:"violations"`
+		Outcome string            `json:"outcome"`
+		DirErr  string            `json:"directed_error"`
+	}
+	if e := json.Unmarshal(raw, &res); e != nil || err != nil {
+		return "not reproduced", fmt.Sprintf("replay worker failed: %v %v", err, e), cs
+	}
+	trace := strings.Join(labels, " ")
+	if res.DirErr != "" {
+		return "not reproduced", "the implementation cannot follow the trace: " + res.DirErr + "; trace " + trace, cs
+	}
+	for tag, d := range res.Viols {
+		for _, o := range c07Oracles {
+			if tag == o {
+				return "reproduced", tag + ": " + d + "; trace " + trace, cs
+			}
+		}
+	}
+	return "not reproduced", "the implementation follows the schedule without violating any protocol oracle (outcome " + res.Outcome + "); trace " + trace, cs
+}
 
 func lastLines(s string, n int) string {
 	ls := strings.Split(strings.TrimSpace(s), "\n")
